@@ -297,7 +297,10 @@ MODES = {
 def c05_scenario(rep, rng, scratch, idx):
     mode_name = rng.choice(list(MODES))
     mode = mode_name.split("(")[0]
-    template = rng.choice(["idle", "midrun", "midrun", "at-exit", "grace", "back-to-back", "postpone", "delay-run", "three-step"])
+    template = rng.choice(["idle", "midrun", "midrun", "at-exit", "grace", "back-to-back", "postpone", "delay-run", "three-step",
+                           "exit-in-delay", "exit-in-delay"])
+    if template == "exit-in-delay" and mode not in ("queue", "restart"):
+        template = "midrun"
     if template == "grace" and mode != "restart":
         template = "midrun"
     if template == "three-step" and mode not in ("queue", "restart"):
@@ -321,21 +324,28 @@ def c05_scenario(rep, rng, scratch, idx):
     if template == "delay-run":
         delay = rng.choice([200, 400])
         flags += ["--delay-run", "%dms" % delay]
+    elif template == "exit-in-delay":
+        # the command ends by itself while the action for a change is still sitting out its --delay-run
+        delay = rng.choice([300, 500])
+        flags += ["--delay-run", "%dms" % delay]
+    elif template in ("midrun", "back-to-back", "three-step") and rng.random() < 0.25:
+        delay = rng.choice([100, 200])
+        flags += ["--delay-run", "%dms" % delay]
     # expected stop / on-busy signal number
     if mode == "signal":
         busy_sig = stop_sig[1] if stop_sig else (10 if "--signal" in flags else 15)
     else:
         busy_sig = stop_sig[1] if stop_sig else 15
-    child_kind = {"idle": "quick", "at-exit": "medium"}.get(template, rng.choice(["long", "long-ignore", "long-slowexit"]))
+    child_kind = {"idle": "quick", "at-exit": "medium", "exit-in-delay": "selfexit"}.get(template, rng.choice(["long", "long-ignore", "long-slowexit"]))
     if mode == "signal" and child_kind != "quick" and child_kind != "medium":
         child_kind = "long-ignore"  # the signal must not end the run, so that "no new start" is observable
-    run_ms = {"quick": 30, "medium": 400, "long": 1300, "long-ignore": 1300, "long-slowexit": 1300}[child_kind]
+    run_ms = {"quick": 30, "medium": 400, "selfexit": 800, "long": 1300, "long-ignore": 1300, "long-slowexit": 1300}[child_kind]
     child = ["--exit-after", str(run_ms)]
     if child_kind == "long-ignore":
         child += ["--ignore"]
     elif child_kind == "long-slowexit":
         child += ["--on-signal", "any:60"]
-    elif child_kind in ("long", "medium"):
+    elif child_kind in ("long", "medium", "selfexit"):
         child += ["--on-signal", "any:0"]
     name = "c05-%d" % idx
     wx = Wx(scratch, name, flags, child)
@@ -412,6 +422,38 @@ def c05_scenario(rep, rng, scratch, idx):
                     V.append(("C05/delay-run/too-early", "run started %.0f ms after the change, --delay-run is %d ms" % ((s["t"] - tb1) / 1e6, delay)))
                 # let everything play out: the run must not be killed by the second action
                 time.sleep(run_ms / 1000.0 + delay / 1000.0 + 0.6)
+        elif template == "exit-in-delay":
+            # several rounds: a change shortly before the run ends by itself, so that the end falls inside the delay of the
+            # action; in queue mode sometimes preceded by a change deep inside the same run. Every change must be followed
+            # by a run that started after it (bounded progress), whatever the race between the end and the action.
+            for rnd in range(3):
+                r0 = current_run()
+                if r0 is None or r0["exit"] is not None:
+                    # idle: a change starts a run (after the delay), which becomes this round's run
+                    n0 = len(wx.starts())
+                    wx.change()
+                    if not wx.wait_starts(n0 + 1, 6.0 + delay / 1000.0):
+                        V.append(("C05/idle-change/no-run", "a change while the command was idle (with --delay-run) did not start it"))
+                        break
+                    r0 = current_run()
+                if mode == "queue" and rng.random() < 0.5:
+                    time.sleep(max(0.0, 0.15 - (mono() - r0["start"]) / 1e9))
+                    wx.change()
+                frac = rng.choice([0.25, 0.5, 0.75])
+                time.sleep(max(0.0, run_ms / 1000.0 - frac * delay / 1000.0 - (mono() - r0["start"]) / 1e9))
+                tbc, _ = wx.change()
+                t0 = time.time()
+                fresh = False
+                while time.time() - t0 < 10.0 + stop_timeout / 1000.0:
+                    if any(s["t"] > tbc for s in wx.starts()):
+                        fresh = True
+                        break
+                    time.sleep(0.02)
+                rep.count("changes_shortly_before_a_self_exit_inside_the_delay", 1)
+                if not fresh:
+                    V.append(("C05/%s/stale" % mode, "a change made %.0f ms before the command ended by itself (--delay-run %d ms) was not followed by a run that started after it (waited %.0f s)" % (frac * delay, delay, 10.0 + stop_timeout / 1000.0)))
+                    break
+                time.sleep(0.05)
         elif template in ("midrun", "back-to-back", "grace", "three-step", "at-exit"):
             r0 = current_run()
             if r0 is None:
@@ -434,7 +476,7 @@ def c05_scenario(rep, rng, scratch, idx):
                     wx.change()
                 tb_first = wx.changes[-nb - (1 if template == "grace" else 0)][0] if template != "grace" else wx.changes[-2][0]
                 ta_last = wx.changes[-1][1]
-                definite = (ta_last - r0["start"]) / 1e9 + debounce / 1000.0 + margin < run_ms / 1000.0
+                definite = (ta_last - r0["start"]) / 1e9 + debounce / 1000.0 + delay / 1000.0 + margin < run_ms / 1000.0
                 # ---- what must follow ---------------------------------------------------------------
                 if mode == "do-nothing":
                     time.sleep(max(0.0, run_ms / 1000.0 - (mono() - r0["start"]) / 1e9) + 0.7)
